@@ -280,3 +280,44 @@ Example C01_number_doc_nonvacuous :
   norm_doc nat ex_fmt_tok ex_parse_tok d <> d /\
   reload c (norm_doc nat ex_fmt_tok ex_parse_tok d) = Some (norm_doc nat ex_fmt_tok ex_parse_tok d).
 Proof. vm_compute. repeat split; try reflexivity. discriminate. Qed.
+
+(* ==================================================================================
+   H_num_stable over the exact definitions of Model/NumFmt.v ('%.7g' and the double-rounded
+   binary32 parse, over Z; compared bit-exactly with the runtime on 20 000 values per run).
+   PROVED (for every D in the range, by bounds on the two roundings, not by enumeration):
+   the fine-grid lemma on [1,2) - binary32 spacing 2^-23 < seven-digit spacing 10^-6, so a
+   seven-digit decimal is recovered from its float - and hence idempotence of parse32 o fmt7 at
+   every number whose seven digits fall in [1,2).
+   MISSING for the full H_num_stable: the other binades of the fine regions (same script with
+   other constants), the coarse regions ([2^-10,1e-3), [2^-30,1e-9), >= 2^33: statement below,
+   Proofs/NumFmt.v coarse_grid_recovers_float_statement), the region boundaries (a float just
+   below a power of ten that prints as that power), zero, and the link from NumFmt.norm to the
+   abstract fmt7/parse32 of Base/Num.v.  H_num_stable therefore stays the Section hypothesis
+   of the round-trip theorems above.
+   ================================================================================== *)
+From PC Require Model.NumFmt Proofs.NumFmt.
+
+Theorem C01_fine_grid_recovers_decimal_partial : forall D, (1000000 <= D < 2000000)%Z ->
+  let '(M, E) := NumFmt.parse32 D (-6) in NumFmt.fmt7 M E = (D, (-6)%Z).
+Proof. exact Proofs.NumFmt.fine_grid_recovers_decimal_1_2. Qed.
+Print Assumptions C01_fine_grid_recovers_decimal_partial.
+
+Theorem C01_num_stable_fine_grid_partial : forall m e D,
+  NumFmt.fmt7 m e = (D, (-6)%Z) -> (1000000 <= D < 2000000)%Z ->
+  NumFmt.norm (fst (NumFmt.norm m e)) (snd (NumFmt.norm m e)) = NumFmt.norm m e.
+Proof. exact Proofs.NumFmt.norm_idempotent_1_2. Qed.
+Print Assumptions C01_num_stable_fine_grid_partial.
+
+(* rounding half-even to a grid: within half a unit, and the only grid point strictly within *)
+Theorem C01_half_even_rounding : forall num den, (0 <= num)%Z -> (0 < den)%Z ->
+  (- den <= 2 * (num - NumFmt.div_half_even num den * den) <= den)%Z /\
+  (forall D, (- den < 2 * (num - D * den) < den)%Z -> NumFmt.div_half_even num den = D).
+Proof.
+  intros num den Hn Hd. split; [exact (Proofs.NumFmt.dhe_spec num den Hn Hd) | intros D; exact (Proofs.NumFmt.dhe_unique num den D Hn Hd)].
+Qed.
+Print Assumptions C01_half_even_rounding.
+
+(* non-vacuity: 1.234567 -> its binary32 10356299 * 2^-23 -> '%.7g' gives 1.234567 back *)
+Example C01_fine_grid_nonvacuous :
+  NumFmt.parse32 1234567 (-6) = (10356299, -23)%Z /\ NumFmt.fmt7 10356299 (-23) = (1234567, -6)%Z.
+Proof. vm_compute. split; reflexivity. Qed.
